@@ -14,7 +14,7 @@ def run(ck):
                         with_close=rng.random() < 0.3, panic_p=0.05)
         c[6] = c[6] + G.drain(c[1], 2)
         cases.append(c)
-    ck.stream("random-schedules", cases, "C01_lts", "C01_lts", None,
+    ck.stream("random-schedules", cases, "C01_lts", "C01_lts", "C01_ok",
               nontrivial=lambda c: len(c[4]) >= 3 and c[1] >= 2, sig=lambda c, e, o: "lts", timeout=1500)
     return ck.finish(rule="random schedules of publisher / attach / stop / consumer goroutines (1-4 consumers, <= 20 packets on the "
                           "video and audio channels incl. parameter sets and key frames, GOP cache on/off) replayed through the "
